@@ -13,10 +13,17 @@ ties it to `Lemmas/BlockLevinson`, and shows (`lwr_solves_concrete`) that the li
 
 `MAR_est_LWR(x, order)` requests `nlags = order + 1` lags (the off-by-one `nlags = order` found by
 this check was repaired in /repo; finding `mar/order-off-by-one`, now status fixed).
+
+Session 3: the lag counts of `MAR_est_LWR` and of `fit_model`'s fixed-order branch come from
+`Generated/FitModel.lean` (translated from the source by `harness/translate_c11.py`); `fitPlan` is the
+whole `order` / `max_order` / criterion semantics of `fit_model` (`fitPair` runs it); integer-typed
+recordings are modelled by the exact embedding `ofIntK` (`crosscovEntryInt`, driver op `ccovi`);
+`aicc` = the AIC with `corrected=True`.
 -/
 import Nitime.Model.ARBase
 import Nitime.Model.SqMatK
 import Nitime.Model.GrangerObj
+import Nitime.Generated.FitModel
 
 namespace Nitime.C11
 open Nitime.AR Nitime.Proto
@@ -56,8 +63,9 @@ def lwrLoop (r : Nat → M) : Nat → LWRSt M
 /-- `lwr_recursion(r)` for `r` of shape `(P+1, nc, nc)`: `(a, sigf)` -/
 def lwr (r : Nat → M) (P : Nat) : List M × M := ((lwrLoop r P).a, (lwrLoop r P).sigf)
 
-/-- number of lags `MAR_est_LWR(x, order)` requests from `autocov_vector` (`nlags=order + 1`) -/
-def marLags (order : Nat) : Nat := order + 1
+/-- number of lags `MAR_est_LWR(x, order)` requests from `autocov_vector` — GENERATED from the source
+(`harness/translate_c11.py`; today `nlags=order + 1`) -/
+def marLags (order : Nat) : Nat := Nitime.Generated.FitModel.marNlags order
 
 /-- `MAR_est_LWR(x, order)` given the lagged covariances `R` of `x`
 (`lwr_recursion` on `marLags order` lags, i.e. `P = nlags − 1`) -/
@@ -112,14 +120,15 @@ def fitSelect {α : Type} (gt : α → α → Bool) (c : Nat → α) (maxOrder :
 
 /-- `fit_model(x1, x2, order, max_order, criterion)`: the order it REPORTS and the number of lags of
 `autocov_vector` it hands to `lwr_recursion`.
-* `order = some p` (`if order is not None`): `lag = order + 1`; `max_order` is not looked at
-  (whatever it is: smaller than, equal to, larger than `order`, or `None`).
+* `order = some p` (`if order is not None`): `lag` = the GENERATED `FitModel.fixedLags p` (today
+  `order + 1`, requested from `autocov_vector` for this call and handed whole to `lwr_recursion`);
+  `max_order` is not looked at (smaller than, equal to, larger than `order`, or `None`).
 * `order = none`: the criterion loop over `range(1, max_order)`; the reported order is
   `coef_new.shape[0]` of the accepted lag, i.e. `lag − 1`; `none` = `ValueError`.
 * `order = none, max_order = none`: `range(1, None)` is a `TypeError` (no result either). -/
 def fitPlan {α : Type} (gt : α → α → Bool) (c : Nat → α) (order maxOrder : Option Nat) : Option (Nat × Nat) :=
   match order, maxOrder with
-  | some p, _ => some (p, p + 1)
+  | some p, _ => some (p, Nitime.Generated.FitModel.fixedLags p)
   | none, some mo => (fitSelect gt c mo).map fun lag => (lag - 1, lag)
   | none, none => none
 
